@@ -63,6 +63,7 @@ def sync_alt():
             for d in ('coq', 'ocaml'):
                 subprocess.run(['rsync', '-a', '--delete', '--exclude', 'cases/', '--exclude', '.lock',
                                 '--exclude', 'gen/Gen.v', '--exclude', 'gen/Gen.vo', '--exclude', 'gen/Gen.glob',
+                                '--exclude', 'gen/GenLoops.v', '--exclude', 'gen/GenLoops.vo', '--exclude', 'gen/GenLoops.glob',
                                 os.path.join(ROOT, d) + '/', os.path.join(ALT, d) + '/'], check=True)
         finally:
             fcntl.flock(f, fcntl.LOCK_UN)
